@@ -170,7 +170,7 @@ def c07(prop, tier, seed, core):
     m["violations"].extend(extra_viol)
     # hostile scenarios, one process each
     # also 2^32 span ids on one thread (the per-thread counter wraps; about ten seconds)
-    add_hostile(m, core, prop, work, tier, HOSTILE + ["id-counter-wrap", "deep-backlog", "deep-backlog-cancel", "set-reporter-vs-cycles", "plain:reporter-panicked-earlier", "plain:reporter-needs-stack"], known_sigs)
+    add_hostile(m, core, prop, work, tier, HOSTILE + ["id-counter-wrap", "deep-backlog", "deep-backlog-cancel", "set-reporter-vs-cycles", "plain:reporter-panicked-earlier", "plain:reporter-needs-stack", "plain:flush-inside-scope-with-tracing-reporter"], known_sigs)
     if tier == "thorough":
         add_sanitizers(m, core, prop, work, seed)
     m["rule"] = (core.RULES["progsim"] + " C07 adds: programs from a hostile profile (40% no-op parents, empty parent sets, 25% unsampled roots, property "
@@ -562,3 +562,22 @@ def c15(prop, tier, seed, core):
 
 
 HANDLERS["C15"] = c15
+
+
+def _progsim_plus(names, text):
+    def handler(prop, tier, seed, core):
+        m = core.check_progsim_family(prop, tier, seed)
+        work = os.path.join(core.WORK, prop)
+        known_sigs = [e["signature"] for e in core.known_for(prop)]
+        add_hostile(m, core, prop, work, tier, names, known_sigs)
+        m["rule"] = core.RULES["progsim"] + " " + text
+        return m
+    return handler
+
+
+HANDLERS["C13"] = _progsim_plus(["plain:enter-on-poll-names"],
+                                "One separate process (build without hooks): enter_on_poll under five names, the empty one included, polled three times each: three per-poll spans of exactly that name under the local parent, the inner spans under them.")
+HANDLERS["C14"] = _progsim_plus(["plain:stream-with-exact-size-hint"],
+                                "One separate process (build without hooks): a stream with the default and one with an exact size_hint, polled to None through in_span: the span has the children of every poll including the last and covers the whole run.")
+HANDLERS["C18"] = _progsim_plus(["plain:stream-with-exact-size-hint"],
+                                "One separate process (build without hooks): the span of a stream with an exact size_hint lasts until the poll that returned None (duration bracketed by the sleeps inside and the wall time of the run).")
